@@ -50,6 +50,7 @@ type VerifC08Case struct {
 	Batch   int          `json:"batch"`
 	Handlers []string    `json:"handlers"` // onError handlers of both triggers: requeue | rerun | log
 	Sink     string      `json:"sink"`     // dataset (default) | http: HttpDatasetSink -> the hub's own POST handler
+	DropIDs  []int       `json:"dropids"`  // a filtering transform (Go stub) that drops these entity ids
 	SrcHTTP  bool        `json:"srchttp"`  // single source read through HttpDatasetSource from the hub's /changes handler (latestOnly = los[0], limit = batch)
 	Ops     []VerifC08Op `json:"ops"`
 }
@@ -141,6 +142,24 @@ func (s *verifC08Source) ReadEntities(ctx context.Context, since jobSource.Datas
 		return errors.New("verif: scripted source failure")
 	}
 	return s.inner.ReadEntities(ctx, since, batchSize, processEntities)
+}
+
+// verifC08Drop is a filtering transform: it returns its input without the entities whose id is listed
+type verifC08Drop struct{ ids map[int]bool }
+
+func (t *verifC08Drop) GetConfig() map[string]interface{} {
+	return map[string]interface{}{"Type": "VerifDropTransform"}
+}
+func (t *verifC08Drop) getParallelism() int            { return 1 }
+func (t *verifC08Drop) EndStoreContext(s string) error { return nil }
+func (t *verifC08Drop) transformEntities(runner *Runner, entities []*server.Entity, jobTag string) ([]*server.Entity, error) {
+	out := make([]*server.Entity, 0, len(entities))
+	for _, e := range entities {
+		if !t.ids[verifC08Tuple(e)[0]] {
+			out = append(out, e)
+		}
+	}
+	return out, nil
 }
 
 func verifC08Value(code int) string {
@@ -437,6 +456,13 @@ func VerifC08Run(c VerifC08Case, dir string) (obs VerifC08Obs) {
 			}
 			w := &verifC08Sink{inner: spec.sink, fault: "none", runner: env.runner, jobID: jc.ID, remote: httpSink}
 			spec.sink = w
+			if len(c.DropIDs) > 0 {
+				d := &verifC08Drop{ids: map[int]bool{}}
+				for _, id := range c.DropIDs {
+					d.ids[id] = true
+				}
+				spec.transform = d
+			}
 			env.jobs[t] = j
 			env.sinks[t] = w
 			env.srcs[t] = spec.source
